@@ -490,7 +490,7 @@ func runC14(c *fw.Ctx) {
 		O("a", S(""), "b", S("x"), "c", I(1), "d", N(), "e", L(), "f", O(), "", F(1.5), "g", B(false)), O(),
 	}
 	c.Cases("pinned", len(pins), true, func(i int, r *rng.R) { c14Case(c, r, pins[i]) })
-	c.Cases("containers", c.N(2000, 100000), false, func(i int, r *rng.R) {
+	c.Cases("containers", c.N(2000, 1000000), false, func(i int, r *rng.R) {
 		// several elements of each kind interleaved, none of a kind, neighbours of look-alike kinds, empty
 		root := spec.List
 		if r.Chance(1, 3) {
